@@ -747,13 +747,22 @@ class Orientation(FieldMethod):
         thr = z3.RealVal('1/100000000')
         nonzero = sq > thr * thr            # |v| > 1e-8  (np.isclose(norm, 0) with atol 1e-8)
         oc = R(result.attrs['_array'].at(E, idx))
-        # |o|^2 == 1 is stated in the division-free form |o|^2 * |v|^2 == |v|^2 (equivalent, since |v|^2 > thr^2 > 0 on this branch):
-        # a polynomial identity after substituting the guarded quotients, instead of a non-linear search
-        return [('unit length where the field is longer than the 1e-8 threshold (|o|^2 * |v|^2 == |v|^2, |v| > 0)', z3.Implies(nonzero, osq * sq == sq)),
+        # 'unit length' is proved by CUT: first, for every component l on its own, o_l^2 * |v|^2 == v_l^2 (each a small obligation);
+        # then |o|^2 * |v|^2 == |v|^2 FROM those nvdim equations - which is linear in the monomials o_l^2 |v|^2 (their sum).  Asked
+        # in one piece the solver has to find the same chain through the guarded quotients and the square root (0.3 s ... minutes).
+        per = []
+        for l in range(nv):
+            o_l = R(result.attrs['_array'].at(E, cell + [l]))
+            x_l = R(s.A(E, f, cell, l))
+            per.append(z3.Implies(nonzero, o_l * o_l * sq == x_l * x_l))
+        out = [(f'component {l}: orientation^2 * |v|^2 == component^2 where the field is longer than the threshold', per[l]) for l in range(nv)]
+        out += [('unit length where the field is longer than the 1e-8 threshold (|o|^2 * |v|^2 == |v|^2, |v| > 0; from the per-component equations)',
+                 z3.Implies(z3.And(*per), z3.Implies(nonzero, osq * sq == sq))),
                 ('zero where the field is within the threshold', z3.Implies(z3.Not(nonzero), oc == 0)),
                 ('orientation * length == field where non-zero (same direction)', z3.Implies(nonzero, oc * oc * sq == R(s.A(E, f, cell, idx[-1])) * R(s.A(E, f, cell, idx[-1])))),
                 ('orientation has the sign of the component', z3.Implies(nonzero, oc * R(s.A(E, f, cell, idx[-1])) >= 0)),
                 s.valid_same(E, st, result, idx)]
+        return out
 
 
 class ComplexPart(FieldMethod):
